@@ -11,6 +11,7 @@
 import RapidProofs.PruneProp
 import RapidProofs.PruneCustom
 import RapidProofs.TranslatedEq
+import RapidProofs.TranslatedDataEq
 
 namespace Rapid.C04
 
@@ -88,6 +89,42 @@ theorem source_repeat_reject (c rj mn : Nat) (f rej : Bool) (hc : c < 2 ^ 60) (h
       if tooManyRejections cfg ⟨c, rj, f⟩ then none
       else some (Int64.ofNat c, (f || decide (rj + 1 > c * 2)), Int64.ofNat mn, true, Int64.ofNat (rj + 1)) :=
   tr_repeatReject c rj mn f rej hc hr hm cfg hcfg
+
+/-- **`bufBitStream.drawBits(n)` of /repo is `Src.next n`** on a buffer: the value (masked head word), the rest of
+    the buffer, what is recorded; an empty buffer is `invalid data: overrun` -/
+theorem source_bufBitStream_drawBits (buf data : List UInt64) (dl : Int64) (persist : Bool) (n : Nat) (hn : n < 2 ^ 62)
+    (hb : buf.length < 2 ^ 62) :
+    Translated.bufBitStream_drawBits buf data dl persist (Int64.ofNat n) =
+      match (Src.buf buf).next n with
+      | none => .error (.invalidData "overrun")
+      | some (u, src') =>
+        .ok (u, (match src' with | .buf b => b | .rng _ => []), if persist then data ++ [u] else data,
+             if persist then dl else dl + 1, persist) :=
+  tr_bufDrawBits buf data dl persist n hn hb
+
+/-- **`randomBitStream.drawBits(n)` of /repo is `Src.next n`** on the PRNG: value, next state, what is recorded
+    (more than 64 bits: all ones, the state untouched) -/
+theorem source_randomBitStream_drawBits (x : Jsf) (data : List UInt64) (dl : Int64) (persist : Bool) (n : Nat) (hn : n < 2 ^ 62) :
+    Translated.randomBitStream_drawBits x.a x.b x.c x.d data dl persist (Int64.ofNat n) =
+      match (Src.rng x).next n with
+      | none => .error .runtime
+      | some (u, src') =>
+        let y := match src' with | .rng y => y | .buf _ => x
+        .ok (u, y.a, y.b, y.c, y.d, if persist then data ++ [u] else data, if persist then dl else dl + 1, persist) :=
+  tr_rngDrawBits x data dl persist n hn
+
+/-- the recording calls of /repo are the steps of `recGo`: `beginGroup` appends an open group that starts at the
+    current data length and returns its index; `endGroup` closes group `i` at the current data length with the
+    discard flag (or fails its assertion when the group recorded nothing and is kept) -/
+theorem source_recording_calls (data : List UInt64) (groups : List Translated.groupInfo) (dl : Int64) (l : String) (s d : Bool)
+    (i : Nat) (hd : data.length < 2 ^ 62) (hg : groups.length + 1 < 2 ^ 62) (hi : i < groups.length) :
+    (∃ g, Translated.recordedBits_beginGroup data groups dl true l s =
+        .ok (Int64.ofNat groups.length, data, groups ++ [g], dl, true) ∧ giOf g = ⟨l, s, data.length, -1, false⟩) ∧
+    Translated.recordedBits_endGroup data groups dl true (Int64.ofNat i) d =
+      (if d || decide (Go.glen data > (groups[i]).begin) then
+        .ok (data, groups.modify i (fun g => { g with end_ := Go.glen data, discard := d }), dl, true)
+      else .error .assertion) :=
+  ⟨tr_beginGroup data groups dl l s hd hg, tr_endGroup data groups dl i d hi (by omega)⟩
 
 /-- a recording made from the PRNG replays from a buffer (the PRNG never overruns) -/
 theorem words_are_masked (s s' : Src) (n : Nat) (u : UInt64) (h : s.next n = some (u, s')) : mask n u = u :=
